@@ -211,6 +211,19 @@ class XsdWildcard(XsdComponent):
     def _has_occurs_restriction(self, other: 'XsdWildcard') -> bool:
         return True
 
+    def _get_comparable(self, other: 'XsdWildcard') -> 'XsdWildcard':
+        """
+        Returns a wildcard equivalent to the other that can be combined or compared
+        with this one: ##other depends on the target namespace of its owner, so for
+        a different target namespace it is replaced by an explicit negation.
+        """
+        if '##other' in other.namespace and \
+                other.target_namespace != self.target_namespace:
+            other = copy(other)
+            other.namespace = set()
+            other.not_namespace = {'', other.target_namespace}
+        return other
+
     @schema_cache
     def is_restriction(self, other: Union[ModelParticleType, 'XsdAnyAttribute'],
                        check_occurs: bool = True) -> bool:
@@ -220,6 +233,7 @@ class XsdWildcard(XsdComponent):
             return False
 
         assert isinstance(other, XsdWildcard)
+        other = self._get_comparable(other)
         if other.process_contents == 'strict' and self.process_contents != 'strict':
             return False
         elif other.process_contents == 'lax' and self.process_contents == 'skip':
@@ -251,7 +265,7 @@ class XsdWildcard(XsdComponent):
             if '##any' in self.namespace:
                 return False
             elif '##other' in self.namespace:
-                return other.not_namespace.issubset(('', other.target_namespace))
+                return other.not_namespace.issubset(('', self.target_namespace))
             else:
                 return all(ns not in other.not_namespace for ns in self.namespace)
 
@@ -270,6 +284,7 @@ class XsdWildcard(XsdComponent):
 
     def union(self, other: Union['XsdAnyElement', 'XsdAnyAttribute']) -> None:
         """Update an XSD wildcard with the union of itself and another XSD wildcard."""
+        other = self._get_comparable(other)
         not_qname = {
             x for x in self.not_qname
             if x in other.not_qname or
@@ -346,6 +361,7 @@ class XsdWildcard(XsdComponent):
 
     def intersection(self, other: Union['XsdAnyElement', 'XsdAnyAttribute']) -> None:
         """Update an XSD wildcard with the intersection of itself and another XSD wildcard."""
+        other = self._get_comparable(other)
         if self.not_qname:
             self.not_qname.update(other.not_qname)
         else:
